@@ -169,6 +169,124 @@ def nm_branches(reply):
     return [st.get("branch") for st in steps] if steps else []
 
 
+# ------------------------------------------------------------------ Powell on the decorated objective
+M64 = (1 << 64) - 1
+
+
+def _bits(v):
+    v = float(v)
+    if v != v:
+        return 0x7ff8000000000000
+    return int(f2b(v)[1:])
+
+
+def log_checksum(calls):
+    """order-sensitive checksum of [(x, y)] (twin of SolverDrv.logSum)"""
+    h = 0
+    for x, y in calls:
+        for v in x:
+            h = (h * 6364136223846793005 + _bits(v) + 1442695040888963407) & M64
+        h = (h * 6364136223846793005 + _bits(y) + 1442695040888963407) & M64
+    return h
+
+
+def pw_request(spec, rec):
+    """Powell replayed from the initial guess and the RECORDED line searches (which points Brent evaluated, which one
+    it returned): everything else - constraints, box test, cost, penalty, delta/bigind bookkeeping, extrapolation
+    test, direction replacement, step records, evaluation log - is recomputed by the model and compared."""
+    if spec["solver"] != "Powell" or not modelable(spec):
+        return None, None
+    snaps = performed_snaps(rec, until_stop=True)
+    if not snaps:
+        return None, None
+    last = snaps[-1]
+    lss = rec.linesearch[:last["n_ls"]]
+    pre_findings = []
+    recs = []
+    for k, (p, xi, fret, xn, xin, pts) in enumerate(lss):
+        idx = None
+        for j, (z, v) in enumerate(pts):
+            if same_vec(z, xn):
+                idx = j
+                break
+        if idx is None:
+            pre_findings.append(("Powell/linesearch-contract/returned-point-not-evaluated",
+                                 "line search %d returned %r, which is none of the %d points it evaluated" % (k, xn, len(pts))))
+            return None, (lambda reply, pf=pre_findings: pf)
+        if pts and all(a == b for a, b in zip(pts[0][0], p)) and len(pts[0][0]) == len(p):
+            f0 = pts[0][1]
+            if f0 == f0 and fret == fret and not (fret <= f0):
+                pre_findings.append(("Powell/linesearch-contract/returned-worse-than-start",
+                                     "line search %d from %r returned energy %r > energy at its start %r (LsMono, hypothesis of the history theorems)" % (k, p, fret, f0)))
+        recs.append("((pre (%s)) (y %s) (post (%s)) (xi %s))" % (" ".join(fl(z) for z, _ in pts[:idx]), fl(xn),
+                                                                " ".join(fl(z) for z, _ in pts[idx + 1:]), fl(xin)))
+    record = not (spec.get("limits") is not None and spec["limits"][0] == 0)
+    line = "C01 pw %s (x0 %s) (record %s) (steps %d) (ls (%s))" % (setup_sexp(spec), fl(spec["x0"]), "true" if record else "false",
+                                                                     len(snaps), " ".join(recs))
+    scalar = spec["cost"][0] == "scalar"
+
+    def compare(reply):
+        out = list(pre_findings)
+        r = common.parse_reply(reply)
+        if r[0] != "ok":
+            return out + [("Powell/model-%s" % r[0], "model replied %r" % (reply[:200],))]
+        steps = []
+        for st in r[1]["steps"]:
+            toks = list(st)
+            steps.append({toks[i]: toks[i + 1] for i in range(0, len(toks) - 1, 2)})
+        if len(steps) != len(snaps):
+            return out + [("Powell/model-step-count", "model ran %d steps, implementation %d" % (len(steps), len(snaps)))]
+        for k, (st, sn) in enumerate(zip(steps, snaps)):
+            diffs = []
+            if not same_vec(fvec(st["x"]), sn["bestSolution"]):
+                diffs.append("bestSolution model=%r impl=%r" % (fvec(st["x"]), sn["bestSolution"]))
+            if not same_float(b2f(st["fval"]), sn["bestEnergy"]):
+                diffs.append("bestEnergy model=%r impl=%r" % (b2f(st["fval"]), sn["bestEnergy"]))
+            if int(st["nlog"]) != sn["n_cost_calls"]:
+                diffs.append("cost calls model=%s impl=%d" % (st["nlog"], sn["n_cost_calls"]))
+            # a Step that detects the stop ends in Finalize, which (Powell) appends a record of its own: control model Ctl
+            if sn["ret"] is None and int(st["nstep"]) != sn["n_stepmon"]:
+                diffs.append("step records model=%s impl=%d" % (st["nstep"], sn["n_stepmon"]))
+            if int(st["nls"]) != sn["n_ls"]:
+                diffs.append("line searches model=%s impl=%d" % (st["nls"], sn["n_ls"]))
+            if diffs:
+                out.append(("Powell/step-diverges", "generation %d: %s" % (k, "; ".join(diffs)[:600])))
+                return out
+        # the model asked for exactly the searches the implementation made
+        reqs = r[1]["reqs"]
+        if len(reqs) != len(lss) or not all(same_vec(fvec(q[0]), l[0]) and same_vec(fvec(q[1]), l[1]) for q, l in zip(reqs, lss)):
+            bad = next((i for i, (q, l) in enumerate(zip(reqs, lss)) if not (same_vec(fvec(q[0]), l[0]) and same_vec(fvec(q[1]), l[1]))), min(len(reqs), len(lss)))
+            out.append(("Powell/linesearch-requests-diverge", "model requested %d searches, implementation %d; first difference at #%d" % (len(reqs), len(lss), bad)))
+            return out
+        sl = r[1]["steplog"]
+        stopped = last["ret"] is not None
+        nrec = last["n_stepmon"]
+        if stopped and nrec == len(sl) + 1 and same_vec(last["stepmon_x"][-1], last["bestSolution"]) and same_float(last["stepmon_y"][-1], last["bestEnergy"]):
+            nrec = len(sl)          # Finalize's record (bestSolution, bestEnergy)
+        if len(sl) != nrec or not all(same_vec(fvec(a[0]), x) and same_float(b2f(a[1]), y) for a, x, y in zip(sl, last["stepmon_x"], last["stepmon_y"])):
+            out.append(("Powell/step-monitor-diverges", "model step log %r != implementation %r" % ([(fvec(a[0]), b2f(a[1])) for a in sl][-3:], list(zip(last["stepmon_x"], last["stepmon_y"]))[-3:])))
+        if not stopped and not same_vec(fvec(r[1]["hist"]), last["energy_history"]):
+            out.append(("Powell/energy-history-diverges", "model %r != implementation %r" % (fvec(r[1]["hist"])[-4:], last["energy_history"][-4:])))
+        if scalar:
+            want = log_checksum(rec.cost_calls[:last["n_cost_calls"]])
+            if int(r[1]["logsum"]) != want:
+                out.append(("Powell/evaluation-log-diverges", "the sequence of (x, cost x) the model evaluates differs from the %d real cost calls" % last["n_cost_calls"]))
+        return out
+    return line, compare
+
+
+def pw_stats(reply, dim):
+    """(iterations replayed, extrapolation line searches among them) for the coverage histogram"""
+    r = common.parse_reply(reply)
+    if r[0] != "ok" or not r[1]["steps"]:
+        return 0, 0
+    steps = r[1]["steps"]
+    toks = list(steps[-1])
+    d = {toks[i]: toks[i + 1] for i in range(0, len(toks) - 1, 2)}
+    its = max(0, len(steps) - 1)
+    return its, max(0, int(d["nls"]) - dim * its)
+
+
 # ------------------------------------------------------------------ control loop
 SCALE = {"DE": (10, 1000), "DE2": (10, 1000), "NM": (200, 200), "Powell": (1000, 1000)}
 
